@@ -34,7 +34,7 @@ KINDS = ["tensor:stR", "tensor:stR-ops", "tensor:stR-sec", "tensor:stR-TD", "ten
          "getprop:stR", "getprop:stF", "getprop:cRF", "getprop:neF-TD",
          "prop:A:0", "prop:A:1", "prop:A:2", "prop:B:0", "prop:B:1", "prop:A:0:6", "prop:B:2:2",
          "prop:A:0:4:n2", "prop:A:1:4:n3", "prop:B:0:4:n2", "prop:A:0:4:n2", "prop:B:1:6:n2",
-         "prop:N:0", "prop:N:1", "prop:N:2", "prop:N2:0", "prop:N2:1", "prop:T:0", "prop:T:1", "prop:T2:1",
+         "prop:N:0", "prop:N:1", "prop:N:2", "prop:N2:0", "prop:N2:1", "prop:T:0", "prop:T:1", "prop:T2:1", "prop:E:0", "prop:E:1", "prop:ET:0", "prop:ET:1", "prop:ET:0",
          "eU:calc", "eU:next", "eU:calcB", "eU:nextB", "sv:0", "sv:1", "pop", "pop:U", "pop:corr", "pop:corr", "pop", "heom:0", "heom:1", "heom:free", "abs"]
 
 
@@ -103,6 +103,12 @@ def run_case(case, ctx):
             RT, hamT = agg.get_RelaxationTensor(t, relaxation_theory="stR", time_dependent=True)
             propT = qm.ReducedDensityMatrixPropagator(t, hamT, RT)
             propT2 = qm.ReducedDensityMatrixPropagator(t, hamT, RT)
+            # propagation driven by a field given as an array on the propagation axis (time-independent and time-dependent tensor)
+            DDf = agg.get_TransitionDipoleMoment()
+            EEs = 0.05 * numpy.exp(-((numpy.array(tshort.data) - 10.0) / 5.0) ** 2)
+            EEt = 0.05 * numpy.exp(-((numpy.array(t.data) - 40.0) / 15.0) ** 2)
+            propE = qm.ReducedDensityMatrixPropagator(tshort, hamA, RA, Efield=EEs, Trdip=DDf)
+            propET = qm.ReducedDensityMatrixPropagator(t, hamT, RT, Efield=EEt, Trdip=DDf)
             eU = qr.EvolutionSuperOperator(time=qr.TimeAxis(0.0, 6, 4.0), ham=hamA, relt=RA)
             eU.set_dense_dt(2)
             eJ = qr.EvolutionSuperOperator(time=qr.TimeAxis(0.0, 6, 4.0), ham=hamA, relt=RA, mode="jit")
@@ -126,7 +132,7 @@ def run_case(case, ctx):
             lsbi = qm.SystemBathInteraction(sys_operators=lops, rates=[1.0 / 150.0])
 
     shared = {"ham": ham, "sbi": sbi, "t": t, "hamA": hamA, "RA": RA, "hamB": hamB, "RB": RB, "tshort": tshort, "hamN": hamN, "RN.data": RN.data, "hamT": hamT, "RT": RT,
-              "rho0": states[0], "rho1": states[1], "rho2": states[2], "psi0": psis[0], "psi1": psis[1],
+              "rho0": states[0], "rho1": states[1], "rho2": states[2], "Efield_short": EEs, "Efield_long": EEt, "dipole_operator": DDf, "psi0": psis[0], "psi1": psis[1],
               "hamh": hamh, "sbih": sbih, "hierarchy": hy, "th": th, "Kpop": Kpop, "lsbi": lsbi}
 
     def snap_all():
@@ -185,7 +191,7 @@ def run_case(case, ctx):
                 ev = pr.propagate(states[0])
                 return kind, arr(ev.data).ravel()
             if p[0] == "prop":
-                pr = {"A": propA, "B": propB, "N": propN, "N2": propN2, "T": propT, "T2": propT2}[p[1]]
+                pr = {"A": propA, "B": propB, "N": propN, "N2": propN2, "T": propT, "T2": propT2, "E": propE, "ET": propET}[p[1]]
                 order = int(p[3]) if len(p) > 3 else 4
                 nref_arg = int(p[4][1:]) if len(p) > 4 else None
                 # two propagators sharing one tensor must give the same result for the same state
